@@ -149,6 +149,7 @@ structure Row where
   yes : Bool
   preview : Bool          -- some `--preview <value>` other than `none` was given
   noRegex : Bool
+  commit : Bool           -- `--commit` (a dimension of the table for `replace`, whose handler tests it; `rename` / `apply` pass it on)
   planEmpty : Bool        -- the scan finds neither a match nor a rename
   failAt : Option Nat     -- the handler's fallible site that fails (none: nothing fails)
   deriving DecidableEq, Repr
@@ -162,7 +163,7 @@ def atomVal (r : Row) (d : Name × Bool × Bool × Bool) : Atom → Bool
   | .planEmpty => r.planEmpty
   | .previewSome => r.preview && !(r.json && d.2.2.2) && !r.quiet
   | .declined => !r.yes           -- stdin is not a terminal: the answer is empty
-  | .commit => false
+  | .commit => r.commit
   | .large => false
   | .tooLarge => false
   | .noRegex => r.noRegex
@@ -276,9 +277,10 @@ def rowsOf (cmd : Cmd) : List Row :=
   (opt (usesYes cmd)).flatMap fun yes =>
   (opt (acceptsPreview cmd)).flatMap fun preview =>
   (opt (cmd == .replace)).flatMap fun noRegex =>
+  (opt (cmd == .replace && !preview && noRegex)).flatMap fun commit =>     -- (--commit is crossed with everything but --preview / regex mode)
   (opt (scansTree cmd)).flatMap fun planEmpty =>
   (failSites cmd).map fun failAt =>
-    { cmd, json, quiet, dryRun, yes, preview, noRegex, planEmpty, failAt }
+    { cmd, json, quiet, dryRun, yes, preview, noRegex, commit, planEmpty, failAt }
 
 def rows : List Row := Cmd.all.flatMap rowsOf
 
@@ -301,7 +303,7 @@ def check (r : Row) (f : Outcome → Bool) : Bool :=
 /-- the plain `--output json` command line (with `-y`, `--no-regex` where they exist) in which nothing fails -/
 def plainRow (cmd : Cmd) : Row :=
   { cmd, json := true, quiet := false, dryRun := false, yes := usesYes cmd, preview := false, noRegex := cmd == .replace,
-    planEmpty := false, failAt := none }
+    commit := false, planEmpty := false, failAt := none }
 
 /-- the document the command emits (payload of the plain row, when it is exactly one) -/
 def emittedDoc (cmd : Cmd) : Option Payload :=
